@@ -602,12 +602,9 @@ impl<'tcx> Cx<'tcx> {
         J::O(o)
     }
 
-    fn dump_body(&self, ldid: LocalDefId) -> J {
+    fn dump_body(&self, ldid: LocalDefId, body: &Body<'tcx>) -> J {
         let tcx = self.tcx;
         let did = ldid.to_def_id();
-        let steal = tcx.mir_built(ldid);
-        let body = steal.borrow();
-        let body: &Body<'tcx> = &body;
         let kind = tcx.def_kind(did);
 
         let mut o: Vec<(&'static str, J)> = Vec::new();
@@ -828,11 +825,25 @@ impl Callbacks for FactsCb {
         let mut adts = Vec::new();
         let mut impls = Vec::new();
         let mut traits = Vec::new();
+        // Phase 1: take a private copy of every function body *before* anything is evaluated: constant
+        // evaluation (while dumping operands, or while building another body) runs the MIR pipeline for the
+        // bodies it needs and steals their `mir_built`.
+        let mut bodies: Vec<(LocalDefId, Body<'tcx>, bool)> = Vec::new();
         for ldid in tcx.hir_body_owners() {
             let kind = tcx.def_kind(ldid);
             if matches!(kind, DefKind::Fn | DefKind::AssocFn | DefKind::Closure) {
-                fns.push(cx.dump_body(ldid));
+                let steal = tcx.mir_built(ldid);
+                if steal.is_stolen() {
+                    // already consumed (a const fn evaluated while building an earlier body): fall back to the
+                    // optimised body so that the function is still represented
+                    bodies.push((ldid, tcx.optimized_mir(ldid.to_def_id()).clone(), true));
+                } else {
+                    bodies.push((ldid, steal.borrow().clone(), false));
+                }
             }
+        }
+        for (ldid, body, _fallback) in bodies.iter() {
+            fns.push(cx.dump_body(*ldid, body));
         }
         for ldid in tcx.hir_crate_items(()).definitions() {
             let kind = tcx.def_kind(ldid);
